@@ -660,6 +660,71 @@ func procedureSameFn(c *core.Ctx) {
 	if len(fns) == 2 {
 		c.Check(fns[0] == fns[1], "same-function", p.Decl(fns[0]).Pos(), "handler and client derive Procedure with the same function (%s / %s)", fns[0].Name(), fns[1].Name())
 	}
+	if len(fns) >= 1 && fns[0] != nil && p.Decl(fns[0]) != nil {
+		// The derived procedure must depend only on the trailing path segments of its argument, so that a
+		// handler mounted under a prefix and a client with a prefixed base URL agree: every returned
+		// expression is built from "/" literals and variables that are only ever assigned elements of
+		// strings.Split(arg, "/") (or left empty) - never the argument itself.
+		xfd := p.Decl(fns[0])
+		arg := info.Defs[xfd.Type.Params.List[0].Names[0]]
+		var split types.Object
+		ast.Inspect(xfd.Body, func(n ast.Node) bool {
+			if as, ok := n.(*ast.AssignStmt); ok && len(as.Lhs) == 1 && len(as.Rhs) == 1 {
+				if call, ok := as.Rhs[0].(*ast.CallExpr); ok && astx.IsPkgFunc(astx.Callee(info, call), "strings", "Split") && len(call.Args) == 2 && astx.ObjOf(info, call.Args[0]) == arg {
+					if sep, ok := astx.ConstString(info, call.Args[1]); ok && sep == "/" {
+						split = astx.ObjOf(info, as.Lhs[0])
+					}
+				}
+			}
+			return true
+		})
+		if split == nil {
+			c.Undecided("segments/split", xfd.Pos(), "%s does not split its argument on \"/\"", xfd.Name.Name)
+		} else {
+			segmentVar := func(o types.Object) bool {
+				okAll, any := true, false
+				ast.Inspect(xfd.Body, func(n ast.Node) bool {
+					as, ok := n.(*ast.AssignStmt)
+					if !ok {
+						return true
+					}
+					for i, l := range as.Lhs {
+						if astx.ObjOf(info, l) != o || i >= len(as.Rhs) {
+							continue
+						}
+						any = true
+						ie, ok := astx.Unparen(as.Rhs[i]).(*ast.IndexExpr)
+						if !ok || astx.ObjOf(info, ie.X) != split {
+							okAll = false
+						}
+					}
+					return true
+				})
+				return okAll && any
+			}
+			for i, ret := range astx.Returns(xfd.Body) {
+				good := len(ret.Results) == 1
+				if good {
+					var walk func(e ast.Expr) bool
+					walk = func(e ast.Expr) bool {
+						e = astx.Unparen(e)
+						if _, ok := astx.ConstString(info, e); ok {
+							return true
+						}
+						if b, ok := e.(*ast.BinaryExpr); ok && b.Op.String() == "+" {
+							return walk(b.X) && walk(b.Y)
+						}
+						if o := astx.ObjOf(info, e); o != nil && o != arg {
+							return segmentVar(o)
+						}
+						return false
+					}
+					good = walk(ret.Results[0])
+				}
+				c.Check(good, fmt.Sprintf("segments/return#%d", i), ret.Pos(), "%s returns %s: built only from \"/\" and trailing segments of the split argument", xfd.Name.Name, types.ExprString(ret.Results[0]))
+			}
+		}
+	}
 	for _, tn := range []string{"handlerConfig", "clientConfig"} {
 		fd := p.FuncDecl(core.ConnectPath, tn+".newSpec")
 		if fd == nil {
